@@ -139,62 +139,35 @@ def own(ctx, o, eff):
         o.site(None, None, "task.py Task: no __eq__/__hash__")
 
 
+REQ = {
+    'parent': [('P1 parent is the task itself', T.F_and(T.F_not(T.F_atom('none(arg)')), T.F_atom('same(arg,self)')), False),
+               ('P2 parent is a descendant of the task', T.F_and(T.F_not(T.F_atom('none(arg)')), T.F_atom('desc(arg,self)')), False),
+               ('P4 a dependency links the moved subtree with the new parent or its ancestors',
+                T.F_and(T.F_not(T.F_atom('none(arg)')), T.F_atom('call:_has_dependency_with_parents(self,arg)')), False)],
+    'children': [('K1 a child is the task itself', T.F_atom('same(elem,self)'), True),
+                 ('K2 the task is a descendant of a new child', T.F_atom('desc(self,elem)'), True),
+                 ('K4 a dependency links a new child subtree with the task or its ancestors',
+                  T.F_atom('call:_has_dependency_with_parents(elem,self)'), True)],
+    'predecessors': [('G1 self-link', T.F_atom('same(elem,self)'), True),
+                     ('G2 an ancestor as predecessor', T.F_atom('desc(self,elem)'), True),
+                     ('G3 a descendant as predecessor', T.F_atom('desc(elem,self)'), True),
+                     ('G4 dependency cycle', T.F_atom('tpred(self,elem)'), True)],
+    'successors': [('G1 self-link', T.F_atom('same(elem,self)'), True),
+                   ('G2 an ancestor as successor', T.F_atom('desc(self,elem)'), True),
+                   ('G3 a descendant as successor', T.F_atom('desc(elem,self)'), True),
+                   ('G4 dependency cycle', T.F_atom('tpred(elem,self)'), True)],
+}
+
+
 def guards(ctx, o, eff, name):
     prog = ctx.prog
     f = prog.func(SETTERS[name])
-    cfg = cfg_of(f)
-    gfs = guard_facts(ctx, f)
     writes = relation_write_nodes(ctx, f, eff)
     if not writes:
         o.fail(f"{f.qual}: no relation write found")
         return
-    positive = {a for g in gfs for a, p in g.atoms if p is True and g.exc == 'RuntimeError'}
-    for label, atom, need_binder in GUARDS[name]:
-        cands = [g for g in gfs if any(a == atom for a, p in g.atoms)]
-        good = None
-        problems = []
-        for g in cands:
-            pol = [p for a, p in g.atoms if a == atom][0]
-            if pol is not True:
-                # the negative form is just the residue of an earlier guard on the same atom
-                continue
-            if g.exc != 'RuntimeError':
-                problems.append((g, f"rejects with {g.exc} instead of RuntimeError"))
-                continue
-            if need_binder and g.binder != 'elem':
-                problems.append((g, "is not evaluated for every element of the argument"))
-                continue
-            others = [(a, p) for a, p in g.atoms if a != atom]
-            bad_ctx = [(a, p) for a, p in others if not ((a in CONTEXT_OK and p is False) or (p is False and a in positive))]
-            if bad_ctx or g.unknown:
-                problems.append((g, "only fires under the extra condition " + ', '.join(
-                    ('' if p else 'not ') + a for a, p in bad_ctx) + ' '.join(src(u) for u in g.unknown)))
-                continue
-            late = T.writes_not_preceded(cfg, f, g, writes)
-            if late:
-                problems.append((g, f"does not precede the write `{src(late[0][1])[:50]}` ({late[0][2]}): state is modified before the check"))
-                continue
-            good = g
-            break
-        if good is not None:
-            o.site(f, good.node, f"{label}: raise RuntimeError if {atom}")
-            continue
-        inverted = [g for g in cands if all(p is not True for a, p in g.atoms if a == atom) and
-                    [a for a, p in g.atoms][-1:] == [atom]]
-        if problems:
-            g, why = problems[0]
-            o.refute(f, g.node, label, f"guard [{label}] {why}")
-        elif inverted:
-            o.refute(f, inverted[0].node, label, f"guard [{label}] has inverted polarity: it raises when `{atom}` is false")
-        else:
-            # is there an unrecognised raise that mentions both roles?
-            roles_needed = {'self', 'elem' if need_binder else 'arg'}
-            fuzzy = [g for g in gfs if g.unknown and any(all(r in _role_text(f, u, g) for r in roles_needed) for u in g.unknown)
-                     and not any(p is True and (a.startswith('call:') or a.startswith('wbs')) for a, p in g.atoms)]
-            if fuzzy:
-                o.undecided(f, fuzzy[0].node, label, f"a raise with an unrecognised condition may implement [{label}]")
-            else:
-                o.refute(f, f.node, label, f"guard [{label}] is missing: `{atom}` is never rejected before relation state is written")
+    for label, R, needs_elem in REQ[name]:
+        T.require(ctx, o, f, label, R, writes, eff, needs_elem)
 
 
 def _role_text(f, u, g):
@@ -358,8 +331,9 @@ def mirror_dep(ctx, o, name, mine, other):
             continue
         conds = [(t, p) for t, p in facts.node_conditions(prog, f, c, ctx.typer, expand=False)
                  if cfg.node_containing(t) is not None and cfg.dominates(cfg.node_of(fo), cfg.node_containing(t))]
-        bad = [(t, p) for t, p in conds if not ((match(f"{f.self_name} in {v.id}.{other}", t) and p) or
-                                                (match(f"{v.id} not in $new", t) and p and roles.is_arg_list(match(f"{v.id} not in $new", t)['new'])))]
+        bad = [(t, p) for t, p in conds if not (facts.cond_is(t, p, f"{f.self_name} in {v.id}.{other}", True) is not None or
+                                                (facts.cond_is(t, p, f"{v.id} in $new", False) is not None and
+                                                 roles.is_arg_list(facts.cond_is(t, p, f"{v.id} in $new", False)['new'])))]
         if bad:
             o.refute(f, c, c, "the mirror link of an old element is only removed when " + ', '.join(facts.cond_texts(bad)) +
                      ": decided on something else than the task objects, a stale mirror link can survive")
@@ -383,7 +357,7 @@ def mirror_dep(ctx, o, name, mine, other):
             continue
         conds = [(t, p) for t, p in facts.node_conditions(prog, f, c, ctx.typer, expand=False)
                  if cfg.node_containing(t) is not None and cfg.dominates(cfg.node_of(fo), cfg.node_containing(t))]
-        bad = [(t, p) for t, p in conds if not (match(f"{f.self_name} not in {v.id}.{other}", t) and p)]
+        bad = [(t, p) for t, p in conds if facts.cond_is(t, p, f"{f.self_name} in {v.id}.{other}", False) is None]
         if bad:
             o.refute(f, c, c, "the mirror link of a new element is only added when " + ', '.join(facts.cond_texts(bad)))
             continue
@@ -408,23 +382,39 @@ def mirror_parent(ctx, o):
     prog = ctx.prog
     f = prog.func(SETTERS['parent'])
     cfg = cfg_of(f)
+    ex = Expander(prog, f, ctx.typer, inline=False)
     s, p = f.self_name, [x for x in f.params if x != f.self_name][0]
+
+    def xcalls(name):
+        """[(original call, expanded call)]"""
+        return [(c, ex.expand(c)) for c in facts.calls_named(f, name)]
+
+    def xconds(node):
+        out = []
+        for t, q in facts.node_conditions(prog, f, node, ctx.typer, expand=True):
+            out.append(facts.norm_cond(t, q))
+        return out
+
     # removal from the old parent through the RAW field
-    rem = [c for c in facts.calls_named(f, 'remove')]
-    raw = [c for c in rem if match(f"{s}._Task__parent._Task__children.remove({s})", c)]
-    pub = [c for c in rem if match(f"{s}.parent._Task__children.remove({s})", c) or match(f"{s}.parent.children.remove({s})", c)]
+    rem = xcalls('remove')
+    raw = [c for c, x in rem if match(f"{s}._Task__parent._Task__children.remove({s})", x)]
+    pub = [c for c, x in rem if match(f"{s}.parent._Task__children.remove({s})", x) or match(f"{s}.parent.children.remove({s})", x)]
     if pub:
-        o.refute(f, pub[0], pub[0], "the task is unlinked from `self.parent` (which hides the WBS root task) instead of the raw parent field: a root "
-                                    "task moved under another task stays in the root list")
+        o.refute(f, pub[0], 'unlink through the public parent', "the task is unlinked from `self.parent` (which hides the WBS root task) instead of the "
+                 "raw parent field: a root task moved under another task stays in the root list")
     elif len(raw) == 1:
-        conds = facts.node_conditions(prog, f, raw[0], ctx.typer, expand=False)
-        extra = [(t, q) for t, q in conds if not ((match(f"{s}._Task__parent is not None", t) and q) or
-                                                  (match(f"{s} in {s}._Task__parent._Task__children", t) and q) or
-                                                  (match(f"{p} is not None", t)) or (match(f"{s}._Task__wbs is None", t)))]
-        real_extra = [(t, q) for t, q in extra if cfg.node_containing(t) is not None and
-                      not any(isinstance(x, ast.Raise) for x in ast.walk(_if_of(f, t) or ast.Pass()))]
-        if real_extra:
-            o.refute(f, raw[0], raw[0], "removal from the old parent is conditional on " + ', '.join(facts.cond_texts(real_extra)))
+        ok_conds = (f"{s}._Task__parent is None", f"{s} in {s}._Task__parent._Task__children", f"{p} is None", f"{s}._Task__wbs is None")
+        extra = []
+        for t, q in xconds(raw[0]):
+            if any(match(pat, t) for pat in ok_conds):
+                continue
+            # residues of guards (an `if ..: raise` that did not fire) are not conditions of the removal
+            iff = _if_of(f, t) or _if_of_src(f, t)
+            if iff is not None and any(isinstance(x, ast.Raise) for x in ast.walk(iff)) and not any(x is raw[0] for x in ast.walk(iff)):
+                continue
+            extra.append((t, q))
+        if extra:
+            o.refute(f, raw[0], 'conditional unlink', "removal from the old parent is conditional on " + ', '.join(facts.cond_texts(extra)))
         else:
             o.site(f, raw[0], "self.__parent.__children.remove(self) when linked")
     else:
@@ -437,41 +427,56 @@ def mirror_parent(ctx, o):
         return
     stn = cfg.node_of(nn[0][0])
     if raw:
-        rif = None
-        for n in walk_no_nested(f.node):
-            if isinstance(n, ast.If) and any(x is raw[0] for st_ in n.body for x in ast.walk(st_)):
-                rif = n if rif is None else rif
-        decided = cfg.node_of(rif) if rif is not None else cfg.node_containing(raw[0])
-        if not cfg.dominates(decided, stn) or cfg.can_reach(stn, cfg.node_containing(raw[0])):
+        rn = cfg.node_containing(raw[0])
+        if cfg.can_reach(stn, rn) or not _decided_before(cfg, f, raw[0], stn):
             o.refute(f, nn[0][0], nn[0][0], "the parent field is overwritten before the task was unlinked from the old parent")
-    app = [c for c in facts.calls_named(f, 'append') if match(f"{p}._Task__children.append({s})", c)]
-    ins = [c for c in facts.calls_named(f, 'insert') if match(f"{p}._Task__children.insert($i, {s})", c)]
+    app = [c for c, x in xcalls('append') if match(f"{p}._Task__children.append({s})", x)]
+    ins = [c for c, x in xcalls('insert') if match(f"{p}._Task__children.insert($i, {s})", x)]
     if ins:
         o.refute(f, ins[0], ins[0], "a re-parented task is inserted instead of appended last")
     elif len(app) == 1:
-        conds = [(t, q) for t, q in facts.node_conditions(prog, f, app[0], ctx.typer, expand=False)]
-        guarded = any((match(f"{s} not in {p}._Task__children", t) and q) for t, q in conds) or \
-            any(match(f"$a and {s} not in {p}._Task__children", t) and q for t, q in conds)
+        guarded = any(match(f"{s} in {p}._Task__children", t) and not q for t, q in xconds(app[0]))
         if guarded:
             o.site(f, app[0], "new parent's child list receives the task once")
         else:
-            o.refute(f, app[0], app[0], "the task is appended to the new parent's child list without `not in` test: it can be listed twice")
+            o.refute(f, app[0], 'unguarded append', "the task is appended to the new parent's child list without `not in` test: it can be listed twice")
         if not cfg.can_reach(stn, cfg.node_containing(app[0])) and not cfg.can_reach(cfg.node_containing(app[0]), stn):
-            o.refute(f, app[0], app[0], "the parent field and the child list are written on different paths")
+            o.refute(f, app[0], 'store and append on different paths', "the parent field and the child list are written on different paths")
     else:
         o.refute(f, f.node, 'append to new parent', f"the new parent's child list is appended {len(app)} times")
     # re-rooting
     none_stores = [x for x in stores if isinstance(x[2], ast.Constant) and x[2].value is None]
-    reroot = [c for c in facts.calls_named(f, 'append') if match(f"{s}._Task__wbs._root().children.append({s})", c)]
+    reroot = [c for c, x in xcalls('append') if match(f"{s}._Task__wbs._root().children.append({s})", x)]
     if reroot and none_stores:
-        c1 = facts.node_conditions(prog, f, reroot[0], ctx.typer, expand=False)
-        if any(match(f"{p} is None", t) and q for t, q in c1) and any(match(f"{s}._Task__wbs is not None", t) and q for t, q in c1):
+        c1 = xconds(reroot[0])
+        if any(match(f"{p} is None", t) and q for t, q in c1) and any(match(f"{s}._Task__wbs is None", t) and not q for t, q in c1):
             o.site(f, reroot[0], "parent = None on a member re-roots it under the WBS root task")
         else:
-            o.refute(f, reroot[0], reroot[0], "re-rooting is not limited to `parent is None` on a member task")
+            o.refute(f, reroot[0], 're-rooting condition', "re-rooting is not limited to `parent is None` on a member task")
         o.site(f, none_stores[0][0], "detached task: parent = None")
     else:
         o.refute(f, f.node, 're-rooting', "parent = None does not re-root a member task under the WBS root task / reset a detached task")
+
+
+def _if_of_src(f, test):
+    """the `if` statement whose (unexpanded) test has the same source as the given expanded test"""
+    for n in walk_no_nested(f.node):
+        if isinstance(n, ast.If) and src(n.test) == src(test):
+            return n
+    return None
+
+
+def _decided_before(cfg, f, call, stn) -> bool:
+    """the innermost `if` around `call` (or the call itself) is decided on every path that reaches stn"""
+    rif = None
+    for n in walk_no_nested(f.node):
+        if isinstance(n, ast.If) and any(x is call for st_ in n.body for x in ast.walk(st_)):
+            rif = n
+    # outermost if whose body contains the call and which is not also around stn
+    cands = [n for n in walk_no_nested(f.node) if isinstance(n, ast.If) and any(x is call for st_ in n.body + n.orelse for x in ast.walk(st_))
+             and not any(cfg.node_of(x) is stn for st_ in n.body + n.orelse for x in ast.walk(st_) if isinstance(x, ast.stmt))]
+    node = cfg.node_of(cands[0]) if cands else cfg.node_containing(call)
+    return node is not None and (cfg.dominates(node, stn) or not cfg.can_reach(stn, node))
 
 
 def _if_of(f, test):
@@ -499,7 +504,12 @@ def mirror_children(ctx, o):
     for st, tgt, val in facts.attr_stores(f, '_Task__parent'):
         if isinstance(val, ast.Constant) and val.value is None:
             fo = _for_of(f, st)
-            if fo is not None and match(f"{s}._Task__children", ex.expand(fo.iter, cfg.node_of(fo))) and \
+            itx = ex.expand(fo.iter, cfg.node_of(fo)) if fo is not None else None
+            mm = (match("list($x)", itx) or match("[$y for $y in $x]", itx) or match("$x.copy()", itx) or match("$x[:]", itx) or
+                  match("tuple($x)", itx)) if itx is not None else None
+            if mm:
+                itx = mm['x']
+            if fo is not None and match(f"{s}._Task__children", itx) and \
                     isinstance(tgt.value, ast.Name) and isinstance(fo.target, ast.Name) and tgt.value.id == fo.target.id:
                 ok = True
                 o.site(f, st, "for v in self.__children: v.__parent = None")
